@@ -399,7 +399,16 @@ CallBuiltin(n, args, s) ==
                             [] args[1].t \in {"bool", "nil", "fn", "builtin", "method", "error"} -> Raise("type error", s)
                             [] OTHER -> Unknown(s)
     [] n = "sorted" -> IF Len(args) < 1 \/ Len(args) > 2 THEN Raise("args error", s)
-                       ELSE IF Len(args) = 2 THEN Unknown(s)
+                       ELSE IF Len(args) = 2 THEN
+                            \* comparator form: modelled for lists of at most two elements (exactly one comparison,
+                            \* less(second, first)); which pairs a longer sort compares is the library's choice
+                            IF args[1].t # "list" \/ args[2].t # "fn" \/ Len(Items(args[1], s)) > 2 THEN Unknown(s)
+                            ELSE LET xs == Items(args[1], s) IN
+                                 IF Len(xs) < 2 THEN NewList(xs, s)
+                                 ELSE LET r == CallFn(args[2], <<xs[2], xs[1]>>, s) IN
+                                      IF r.k = "raise" THEN Demote(r)
+                                      ELSE IF r.k # "ok" THEN Unknown(r.s)
+                                      ELSE NewList(IF Truthy(r.v, r.s) THEN <<xs[2], xs[1]>> ELSE xs, r.s)
                        ELSE CASE args[1].t \in {"list", "set"} ->
                                    LET xs == IF args[1].t = "list" THEN Items(args[1], s) ELSE SetItems(args[1], s) IN
                                    IF \E i \in 1..Len(xs): ~Comparable(xs[i]) THEN (IF Len(xs) < 2 THEN NewList(xs, s) ELSE Raise("anyerror", s))
